@@ -364,6 +364,33 @@ def _rand_shard(seed, n, known, gcc_every):
     return res
 
 
+# ---------------------------------------------------------------- (c) coverage-guided (atheris)
+
+FUZZ_CHARS = ALPHABET + "\tb(;=<"
+_fz = {}
+
+
+def fuzz_setup(workdir):
+    _fz["path"] = os.path.join(workdir, "fz.c")
+
+
+def fuzz_one(data, stats):
+    """bytes -> text over the lexical alphabet; the oracle (reference scanner) is inside the target"""
+    text = "".join(FUZZ_CHARS[b % len(FUZZ_CHARS)] for b in data)
+    j = judge(text, _fz["path"], True)
+    if j is None:
+        return None
+    stats["in_domain"] += 1
+    if j[0] is None:
+        return None
+    sigs = classify(text, j[0], _fz["path"], True)
+    if sigs:
+        return [make_violation(sg, {"text": text, "original": text, "any_directive": True}, j[1], j[2]) for sg in sigs]
+    mt = minimise(text, j[0], _fz["path"], True)
+    j2 = judge(mt, _fz["path"], True)
+    return make_violation(f"{j[0]}|{normalise(mt)!r}", {"text": mt, "original": text, "any_directive": True}, j2[1], j2[2])
+
+
 def _dispatch(job):
     fn, a = job
     return fn(*a)
@@ -378,6 +405,22 @@ def run(ctx):
     res = core.merge_results(core.pool_map(_dispatch, [(j,) for j in jobs]))
     res.exhaustive = False
     res.extra["exhaustive_part"] = f"all texts of length <= {L} over the 10-character alphabet with at most {max_lines} newlines that the scanner accepts"
+    # coverage-guided campaign on FileParser with the scanner as in-target oracle
+    from vlib import fuzz
+
+    findings, stats = fuzz.run_campaign("checks.c05", ctx.known_sigs, ctx.seed, nprocs=ctx.pick(4, 16), runs=ctx.pick(15000, 1500000), max_len=ctx.pick(24, 48))
+    res.extra["atheris"] = stats
+    if "executions" in stats:
+        res.evaluations += stats.get("in_domain", 0)
+        res.suppressed.update({"(atheris) known root causes": stats.get("suppressed", 0)})
+    with core.Scratch("c05fz") as d:
+        for fnd in findings:
+            # gcc decides whether the text is in the domain before it is reported
+            ok, _ = gcc_silent(fnd["case"]["text"], d)
+            if ok:
+                res.violation(**{k: fnd.get(k) for k in ("signature", "case", "expected", "observed", "note")})
+            else:
+                res.discarded["gcc-diagnosed (atheris finding)"] += 1
     return res
 
 
